@@ -10,6 +10,7 @@ import json, subprocess, sys, os, argparse, concurrent.futures as cf, threading,
 ap = argparse.ArgumentParser()
 ap.add_argument("--slots", type=int, default=3)
 ap.add_argument("--tier", default="quick")
+ap.add_argument("--slot-base", type=int, default=0)
 ap.add_argument("--only", default="")
 ap.add_argument("--no-suite", action="store_true")
 ap.add_argument("--seeded", action="store_true")
@@ -32,8 +33,13 @@ res = json.load(open(RES)) if os.path.exists(RES) else {}
 names = [n for n in idx if (not a.only or n in a.only.split(","))]
 if not a.rerun:
     names = [n for n in names if n not in res]
+# freeze the harness sources for the whole sweep, so that editing /verif/harness meanwhile cannot break a build
+SNAP = f"/tmp/vmut/harness-snap-{os.getpid()}"
+os.makedirs("/tmp/vmut", exist_ok=True)
+subprocess.run(["rsync", "-a", "--delete", "--exclude", "target", V + "/harness/", SNAP + "/"], check=True)
+os.environ["VERIF_HARNESS_SRC"] = SNAP
 lock = threading.Lock()
-slots = list(range(a.slots))
+slots = list(range(a.slot_base, a.slot_base + a.slots))
 
 def suite(slot, patch):
     wt = f"/tmp/vmut/{slot}/repo"
@@ -81,5 +87,6 @@ def one(name):
 
 with cf.ThreadPoolExecutor(a.slots) as ex:
     list(ex.map(one, names))
+subprocess.run(["rm", "-rf", SNAP])
 missed = {n: r["checks"] for n, r in res.items() if not any(v == "caught" for v in r["checks"].values())}
 print("not caught:", json.dumps(missed, indent=1))
